@@ -161,14 +161,14 @@ fn main() {
     prof.w_put = 34; prof.w_update = 18; prof.w_delete = 12; prof.w_commit = 14; prof.w_reopen = 6; prof.w_crash = 0; prof.w_readonly = 1;
     prof.w_batch = 0; prof.w_skip = 0; prof.w_finalize = 0; prof.w_vacuum = 9; prof.w_doctor = 0; prof.w_ticket = 0;
     prof.emb_percent = 25; prof.wrong_dim_percent = 1; prof.instant_index_percent = 10;
-    prof.n_short = if args.thorough { 40 } else { 12 };
+    prof.n_short = if args.thorough { 100 } else { 18 };
     prof.short_len = (12, 44);
     prof.n_long = 0;
     prof.corpus = corpus();
     // the online generator never draws a doctor op (w_doctor = 0: a doctor run on an EMPTY memory is a known gap
     // between the shared Core model and the doctor's probe, not a vacuum matter); doctor(vacuum) histories are
     // generated here instead, offline, always on a memory that already holds committed frames
-    prof.corpus.extend(doctor_histories(args.seed, if args.thorough { 14 } else { 5 }, &prof));
+    prof.corpus.extend(doctor_histories(args.seed, if args.thorough { 30 } else { 7 }, &prof));
     let cfg = FamilyConfig {
         property: "C42",
         rule: "operation histories on a real .mv2 file and on the Lean Core model (full observation compared after every op) with \
